@@ -41,7 +41,7 @@ import time
 VERIF = os.path.dirname(os.path.dirname(os.path.abspath(__file__)))
 REL = "emu_sv/time_evolution.py"
 REPLAY = os.path.join(VERIF, "replay", "c30.py")
-MAX_PROBES = 8
+MAX_PROBES = 6
 MIN_CASES = dict(quick=600, thorough=1500)
 
 TARGETS = {  # case kind -> (class / function in emu_sv/time_evolution.py, label)
@@ -273,7 +273,14 @@ def run(prop, tier, seed, repo_root):
                 pr = probes.get(name)
                 ob["status"] = "unknown"
                 ob["note"] = f"undecided under the shim: {r.get('op')}"
-                if pr is not None:
+                if pr is None:
+                    ob["native_replay"] = dict(reproduced=False, searched=False,
+                                               note=f"not searched individually: the bounded native panel search was run "
+                                                    f"for {len(probes)} of {len(unsupported)} undecided cases (one per class, "
+                                                    f"number of atoms and undecided operation; at most {MAX_PROBES}): "
+                                                    f"{sorted(probes)}")
+                else:
+                    ob["native_replay"] = dict(pr["native"], reproduced=bool(pr["reproduced"]), searched=True)
                     ob["note"] += (f"; bounded native panel search: " +
                                    ("the real code disagrees with the specification" if pr["reproduced"] else
                                     "no failing input found") + f" ({pr['replay']})")
